@@ -116,6 +116,10 @@ pub fn mut_op<'a, P: PT, L, R>(
     }
 }
 
+pub fn is_pair_op(name: &str) -> bool {
+    matches!(name, "Union" | "Inter" | "Diff" | "CovDiff" | "UnionMut" | "InterMut" | "DiffMut" | "CovDiffMut" | "Eq")
+}
+
 /// Two collections that can be combined.
 pub trait PairOps<P: PT, B> {
     fn pair_op(&mut self, other: &mut B, ctx: &Ctx, op: &str, qa: &P, qb: &P) -> Value;
